@@ -229,3 +229,67 @@ Proof.
            apply Forall_app. split; [apply pct_bytes_safe, encode_rune_bytes, Hv|exact Hs].
         -- cbn [bind]. rewrite IH. reflexivity.
 Qed.
+
+(* ---- no <wbr> inside a character reference (limit >= 1): the output of the generated code's
+   insertWordBreaks(escapeHtml(x), n) is a concatenation of units, each <wbr> or the whole escaped image of
+   one code unit of x ---- *)
+Definition u_iwb_unit (u : ustr) : Prop := u = wbr \/ exists c, u = u_esc1 c.
+
+(* the body of a reference written by soy.$$escapeHtml: between & and ; *)
+Definition ent_body_char (c : N) : Prop := c <> 59 /\ c <> 60 /\ c <> 32 /\ u_is_low c = false.
+
+Lemma u_iwb_in_entity maxc n body : forall rest, (n < maxc)%Z -> Forall ent_body_char body ->
+  u_iwb_aux maxc false true n (body ++ 59 :: rest) = body ++ 59 :: u_iwb_aux maxc false false (n + 1)%Z rest.
+Proof.
+  induction body as [|c r IH]; intros rest Hn Hb.
+  - cbn [app u_iwb_aux]. replace (n >=? maxc)%Z with false by lia. cbn [andb app]. reflexivity.
+  - inversion Hb as [|? ? (H59 & H60 & H32 & Hlow) Hr]; subst. cbn [app u_iwb_aux].
+    replace (n >=? maxc)%Z with false by lia. cbn [andb app].
+    destruct (N.eqb_spec c 59); [congruence|]. destruct (N.eqb_spec c 60); [congruence|]. destruct (N.eqb_spec c 32); [congruence|].
+    rewrite IH by assumption. reflexivity.
+Qed.
+
+Lemma u_html_escape1_shape c e : u_html_escape1 c = Some e -> exists body, e = 38 :: body ++ [59] /\ Forall ent_body_char body.
+Proof.
+  unfold u_html_escape1.
+  repeat match goal with |- (if N.eqb c ?k then _ else _) = _ -> _ =>
+    destruct (N.eqb c k);
+    [intros H; injection H as <-;
+     match goal with |- exists body, 38 :: ?l = _ /\ _ => exists (removelast l) end;
+     split; [reflexivity|repeat constructor; unfold u_is_low, in_range; lia]|] end.
+  discriminate.
+Qed.
+
+Lemma u_iwb_step maxc n c rest : (1 <= maxc)%Z ->
+  exists pre n', (pre = [] \/ pre = wbr) /\
+    u_iwb_aux maxc false false n (u_esc1 c ++ rest) = pre ++ u_esc1 c ++ u_iwb_aux maxc false false n' rest.
+Proof.
+  intros Hm. unfold u_esc1. destruct (u_html_escape1 c) as [e|] eqn:Ee.
+  - destruct (u_html_escape1_shape c e Ee) as (body & -> & Hb).
+    cbn [app u_iwb_aux]. change (38 =? 32) with false. change (u_is_low 38) with false. rewrite !andb_true_r.
+    change (38 =? 60) with false. change (38 =? 38) with true. cbv iota.
+    rewrite <- app_assoc. cbn [app].
+    destruct (n >=? maxc)%Z eqn:En.
+    + rewrite u_iwb_in_entity by (try assumption; lia). exists wbr, (0 + 1)%Z. split; [auto|]. cbn [app]. rewrite <- !app_assoc. reflexivity.
+    + rewrite u_iwb_in_entity by (try assumption; lia). exists [], (n + 1)%Z. split; [auto|]. cbn [app]. rewrite <- !app_assoc. reflexivity.
+  - (* an ordinary unit: not & < (nor the other escaped ones) *)
+    assert (c <> 60 /\ c <> 38) as (H60 & H38).
+    { unfold u_html_escape1 in Ee. destruct (N.eqb_spec c 0); [discriminate|]. destruct (N.eqb_spec c 34); [discriminate|].
+      destruct (N.eqb_spec c 38); [discriminate|]. destruct (N.eqb_spec c 39); [discriminate|]. destruct (N.eqb_spec c 60); [discriminate|]. auto. }
+    cbn [app u_iwb_aux]. destruct (N.eqb_spec c 60); [congruence|]. destruct (N.eqb_spec c 38); [congruence|].
+    destruct ((n >=? maxc)%Z && negb (c =? 32) && negb (u_is_low c)).
+    + destruct (c =? 32); eexists wbr, _; (split; [auto|reflexivity]).
+    + destruct (c =? 32); eexists [], _; (split; [auto|reflexivity]).
+Qed.
+
+Theorem u_wbr_units s maxc : (1 <= maxc)%Z ->
+  exists us, Forall u_iwb_unit us /\ u_insert_word_breaks s maxc = concat_b us.
+Proof.
+  intros Hm. unfold u_insert_word_breaks, u_word_breaks. generalize 0%Z as n.
+  induction s as [|c r IH]; intros n; [exists []; split; [constructor|reflexivity]|].
+  cbn [u_escape_html]. destruct (u_iwb_step maxc n c (u_escape_html r) Hm) as (pre & n' & Hpre & ->).
+  destruct (IH n') as (us & Hus & ->).
+  destruct Hpre as [-> | ->].
+  - exists (u_esc1 c :: us). split; [constructor; [right; eauto|exact Hus]|reflexivity].
+  - exists (wbr :: u_esc1 c :: us). split; [constructor; [left; reflexivity|constructor; [right; eauto|exact Hus]]|reflexivity].
+Qed.
